@@ -585,4 +585,55 @@ Section Proofs.
   Proof. intros. apply verdict_ok_laws, aggregate_verdict_ok; assumption. Qed.
 
 
+  (* ============================================================================================
+     beacon_block
+     ============================================================================================ *)
+  Lemma start_of_own_epoch s : cfg_wf c -> s < two64 ->
+    compute_start_slot_at_epoch b (compute_epoch_at_slot b s) = Some (s / SLOTS_PER_EPOCH c * SLOTS_PER_EPOCH c).
+  Proof.
+    intros [H0 H1] Hs. unfold compute_start_slot_at_epoch, compute_epoch_at_slot.
+    pose proof (N.mul_div_le s (SLOTS_PER_EPOCH c)).
+    replace (s / SLOTS_PER_EPOCH c * SLOTS_PER_EPOCH c <? two64) with true by lia. reflexivity.
+  Qed.
+
+  Lemma epoch_le s1 s2 : cfg_wf c -> s1 <= s2 -> compute_epoch_at_slot b s1 <= compute_epoch_at_slot b s2.
+  Proof. intros [H0 _] H. unfold compute_epoch_at_slot. apply N.div_le_mono; lia. Qed.
+
+  (* the finalized epoch's start slot is representable *)
+  Definition fin_wf : Prop := fst (finalized b) * SLOTS_PER_EPOCH c < two64.
+
+  Ltac blk_sel := lazy [ok_at rej_at all_conditions no_reject_fails forallb block_conditions app c_ok c_tag mk is_ignore].
+  Ltac blk_unf := unfold shuffling_state, not_from_future, latest_slot, compute_signing_root, compute_epoch_at_slot.
+  Ltac blk_pre :=
+    try match goal with
+        | Hlt : (?s <=? entry_slot b ?p) = false, Hc : cfg_wf c
+          |- context [?s / SLOTS_PER_EPOCH c <? entry_slot b ?p / SLOTS_PER_EPOCH c] =>
+          replace (s / SLOTS_PER_EPOCH c <? entry_slot b p / SLOTS_PER_EPOCH c) with false
+            by (pose proof (epoch_le (entry_slot b p) s Hc) as Hle; unfold compute_epoch_at_slot in Hle; lia)
+        end.
+  Ltac blk_step := seq_step blk_pre ltac:(fun t => leaf t blk_sel blk_unf).
+
+  Lemma block_verdict_ok blk : cfg_wf c -> b_slot blk < two64 -> fin_wf ->
+    verdict_ok (validate_block b blk) (block_conditions b blk).
+  Proof.
+    intros Hc Hs Hf.
+    unfold validate_block, validate_block_v, verdict_ok.
+    cbn [block_mark_early fixed].
+    unfold block_signature_ok, expected_proposer, signing_root, slot_to_epoch.
+    assert (Hfe : fst (finalized b) < two64) by (destruct Hc; unfold fin_wf in Hf; nia).
+    rewrite (start_slot_val_spec _ Hc Hfe).
+    assert (Hfs : compute_start_slot_at_epoch b (fst (finalized b)) = Some (fst (finalized b) * SLOTS_PER_EPOCH c)).
+    { unfold compute_start_slot_at_epoch. unfold fin_wf in Hf. replace (fst (finalized b) * SLOTS_PER_EPOCH c <? two64) with true by lia. reflexivity. }
+    assert (Hte : b_slot blk / SLOTS_PER_EPOCH c < two64).
+    { destruct Hc. pose proof (N.div_le_upper_bound (b_slot blk) (SLOTS_PER_EPOCH c) (b_slot blk)). nia. }
+    pose proof (start_of_own_epoch _ Hc Hs) as Hown. unfold compute_epoch_at_slot in Hown.
+    rewrite (start_slot_val_spec _ Hc Hte), Hown, Hfs.
+    repeat blk_step.
+  Qed.
+
+  Theorem block_laws blk : cfg_wf c -> b_slot blk < two64 -> fin_wf ->
+    verdict_laws (validate_block b blk) (block_conditions b blk).
+  Proof. intros. apply verdict_ok_laws, block_verdict_ok; assumption. Qed.
+
+
 End Proofs.
